@@ -350,9 +350,10 @@ type CiphertextCPA struct {
 //   - U = rP \in G1,
 //   - V = M XOR H2(Gid)) = M XOR H2(GidT)  \in {0,1}^n
 func EncryptCPAonG1(s pairing.Suite, basePoint, public kyber.Point, ID, msg []byte) (*CiphertextCPA, error) {
-	if len(msg)>>16 > 0 {
-		// we're using blake2 as XOF which only outputs 2^16-1 length
-		return nil, errors.New("ciphertext too long")
+	if len(msg) > s.Hash().Size() {
+		// the pad H2(Gid) covers only one hash output: anything beyond it
+		// would be sent in the clear
+		return nil, errors.New("plaintext too long for the hash function provided")
 	}
 	hashable, ok := s.G2().Point().(kyber.HashablePoint)
 	if !ok {
@@ -389,6 +390,9 @@ func EncryptCPAonG1(s pairing.Suite, basePoint, public kyber.Point, ID, msg []by
 //     = V XOR H2(e(P, P)^(r*s*x))
 //     = V XOR H2(GidT) = M
 func DecryptCPAonG1(s pairing.Suite, private kyber.Point, c *CiphertextCPA) ([]byte, error) {
+	if len(c.C) > s.Hash().Size() {
+		return nil, errors.New("ciphertext too long for the hash function provided")
+	}
 	GidT := s.Pair(c.RP, private)
 	hGidT, err := gtToHash(s, GidT, len(c.C))
 
